@@ -36,7 +36,7 @@ var countCmd = &cobra.Command{
 
 		callMapSort := string_helper.SortWord(callMap)
 
-		if countCmdConfig.Top > 0 {
+		if countCmdConfig.Top > 0 && countCmdConfig.Top < len(callMapSort) {
 			callMapSort = callMapSort[:countCmdConfig.Top]
 		}
 
